@@ -1030,11 +1030,14 @@ func (h *hist) judgePost(post *sut.Resp, nCalls, nDone int, cs, good string, ref
 	rep.Count("revoke_outcome_observed_"+k.Revoke, 1)
 	if k.Revoke == "timeout" {
 		// after the response: a revoke call arriving late (a background retry) repairs nothing; counted
-		time.Sleep(200 * time.Millisecond)
 		after := 0
-		for _, c := range h.revokeCalls() {
-			if c.EndSeq > post.EndSeq {
-				after++
+		for t := 0; t < 10 && after < 2; t++ {
+			time.Sleep(100 * time.Millisecond) // not a verdict: late calls are only counted
+			after = 0
+			for _, c := range h.revokeCalls() {
+				if c.EndSeq > post.EndSeq {
+					after++
+				}
 			}
 		}
 		if after > 1 { // one of them is the call the authenticator gave up on
